@@ -71,6 +71,10 @@ CLAIMED["C02"] = ("mirsym over EVERY library function that maps a full_moon AST 
     "bounded symbolic model checking of one inductive step per formatter: on every control path of ~90 formatter functions (loops visited <= 2 times) every child slot of the returned node derives from the input's same-named child (an optional child is dropped only when absent in the input; an empty child is replaced only under an emptiness test), enum formatters return the node kind they received, call-site guards of lossy helpers hold; number rewriting and parenthesis removal as in C04/C05 (<=2 operators here)",
     "trusts rustc's MIR printer, mirsym, z3, full_moon's builder/accessor pairs as parsed from its source; provenance is structural (a slot filled from a value computed from the right child counts as that child); symbol TEXT, trivia (C03) and Punctuated internals are outside", "5/C02")
 
+CLAIMED["C03"] = ("mirsym over every formatter function of the library (all layout paths) with a provenance analysis of removed tokens: a token of the input that does not reach the result must have both trivia lists read and flowing into the result, or a comment test over exactly that trivia must be false on the path (z3 decides the guards); load_token_trivia one-step, format_token_reference composition, comment text via the bounded-string kernel of C10; comment-census replay with the checker's own lexer",
+    "bounded symbolic model checking of the places where trivia changes hands: in ~100 formatter functions (loops visited once) no token is dropped together with comments (removed parentheses, condition parentheses, call-sugar parentheses, semicolons, rebuilt symbols); every comment trivia is formatted and pushed exactly once; the text and bracket level of a comment survive for all texts of <= 5 (thorough 7) characters",
+    "trusts rustc's MIR printer, mirsym, z3, the exactness of trivia_util's comment tests; comments moved between tokens inside Punctuated lists and double formatting of discarded trial results are outside", "5/C03")
+
 CLAIMED["C15"] = ("override dominance over every configuration route (vcheck/cfgorigin.py); mirsym over find_config_file (recursion inlined) / lookup_config_file_in_directory / find_toml_file / load_configuration(_for_stdin) with the file system abstracted to a symbolic directory chain and a map-summarised cache, two successive lookups; z3 against the documented precedence; directory-tree replay",
     "bounded symbolic model checking of the precedence kernels: for every existence pattern of stylua.toml/.stylua.toml on a chain of 4 directories, every cwd position or parent search: the nearest file up to the root (or XDG/HOME) is chosen, a cached second lookup (same directory or its parent) agrees; forced > found > editorconfig (unless disabled) > defaults",
     "trusts rustc's MIR printer, mirsym + Path/HashMap summaries, z3; toml decoding, ec4rs discovery and the XDG/HOME probing order are outside", "5/C15-C20")
